@@ -6,7 +6,7 @@ import Eliot.Model.File
 Values cross the protocol as tagged trees (`cps` = array of code points, so lone surrogates survive):
   {"t":"null"} {"t":"bool","v":true} {"t":"int","v":"-12"} {"t":"float","v":"1e+22"} {"t":"str","v":cps}
   {"t":"list","v":[tree..]} {"t":"dict","v":[[key,tree]..]}  key = {"t":"str","v":cps} | {"t":"other"}
-  {"t":"path","v":cps} {"t":"date","v":"iso"} {"t":"time","v":"iso"} {"t":"timetz"} {"t":"set","v":[tree..]}
+  {"t":"path","v":cps} {"t":"date","v":"iso"} {"t":"time","v":"iso"} {"t":"timetz"} {"t":"isosub","v":"iso"} {"t":"set","v":[tree..]}
   {"t":"complex","re":"tok","im":"tok"} {"t":"custom","v":tree} {"t":"unsupported"}
 ("own":true, optional, with "ext":true: the caller's default does not chain to eliot's json_default -> `ownView`)
 in : {"op":"dumps","ext":bool,"v":tree}        out: {"t":[cp..],"b":"hex"} | {"err":kind}
@@ -54,6 +54,7 @@ partial def toPy (j : Json) : Except String PyVal := do
   | "date" => pure (.date (cpsOfString (← j.getObjValAs? String "v")))
   | "time" => pure (.time (cpsOfString (← j.getObjValAs? String "v")))
   | "timetz" => pure .timeTz
+  | "isosub" => pure (.isoSub (cpsOfString (← j.getObjValAs? String "v")))
   | "complex" => pure (.complex (cpsOfString (← j.getObjValAs? String "re")) (cpsOfString (← j.getObjValAs? String "im")))
   | "custom" => pure (.custom (← toPy (← j.getObjVal? "v")))
   | "unsupported" => pure .unsupported
